@@ -64,6 +64,13 @@ fn print_outcome(ctx: &Ctx, rep: &Report) -> i32 {
 
 fn main() {
   install_panic_hook();
+  // watchdog: a run that does not end is reported as inconclusive (exit 2), never as a violation
+  let wd: u64 = std::env::var("VERIF_WATCHDOG_S").ok().and_then(|s| s.parse().ok()).unwrap_or(6 * 3600);
+  std::thread::spawn(move || {
+    std::thread::sleep(std::time::Duration::from_secs(wd));
+    eprintln!("INCONCLUSIVE: watchdog expired after {} s", wd);
+    std::process::exit(2);
+  });
   if std::env::var("HPXV_NO_WARMUP").is_err() {
     hpxv::sut::warm_up();
   }
